@@ -16,7 +16,7 @@ fn space(tier: Tier) -> &'static Space {
     static T: OnceLock<Space> = OnceLock::new();
     match tier {
         Tier::Quick => Q.get_or_init(|| Space::new(&[("FX", 0), ("FS", 2), ("FC", 2), ("FA", 2), ("FT", 2), ("FL", 2), ("FW", 0), ("FM", 0), ("FR", 0), ("FB", 2), ("FO", 0)])),
-        Tier::Thorough => T.get_or_init(|| Space::new(&[("FX", 0), ("FS", 3), ("FC", 4), ("FA", 4), ("FT", 3), ("FL", 4), ("FW", 0), ("FM", 0), ("FR", 0), ("FB", 3), ("FO", 0)])),
+        Tier::Thorough => T.get_or_init(|| Space::new(&[("FX", 0), ("FS", 3), ("FC", 3), ("FA", 3), ("FT", 3), ("FL", 4), ("FW", 0), ("FM", 0), ("FR", 0), ("FB", 3), ("FO", 0)])),
     }
 }
 /// (samples, [(stream, scheduler installed)])
@@ -27,7 +27,7 @@ fn params(tier: Tier, family: &str) -> (usize, Vec<(usize, bool)>) {
         (Tier::Quick, _) => (12, vec![(0, true), (1, false)]),
         (Tier::Thorough, "FX") => (4, vec![(1, true), (1, false)]),
         (Tier::Thorough, "FT") | (Tier::Thorough, "FL") | (Tier::Thorough, "FR") | (Tier::Thorough, "FO") => (16, vec![(0, true), (1, true)]),
-        (Tier::Thorough, _) => (32, vec![(0, true), (0, false), (1, false), (2, true)]),
+        (Tier::Thorough, _) => (32, vec![(0, true), (2, false)]),
     }
 }
 
